@@ -56,3 +56,29 @@ func (s *State) VerifTryLock() bool {
 	}
 	return false
 }
+
+// VerifView renders the frame of the current state (what the terminal should be showing).
+func (s *State) VerifView() string {
+	s.m.Lock()
+	defer s.m.Unlock()
+	if s.h.IsEmpty() && s.mode != loading {
+		return ""
+	}
+	return s.view()
+}
+
+// VerifPageItems returns every loaded item of history page i by position.
+func (s *State) VerifPageItems(i int) map[int]pub.Tangible {
+	s.m.Lock()
+	defer s.m.Unlock()
+	pages, _ := s.h.VerifAll()
+	if i < 0 || i >= len(pages) {
+		return nil
+	}
+	out := map[int]pub.Tangible{}
+	lower, upper, index := pages[i].feed.VerifBounds()
+	for pos := lower + 1; pos < upper; pos++ {
+		out[pos] = pages[i].feed.Get(pos - index)
+	}
+	return out
+}
